@@ -57,7 +57,7 @@ def scenario(ctx, i):
         x[: max(1, N // 2)] = m[tiny] + np.sqrt(v[tiny]) * r.normal(size=(max(1, N // 2), D))
     if kind == "bulk":
         x = gen.maybe_int(r, x, p=0.25)  # other legal dtypes of the sample array (the model sees the same values)
-    order = ["thr_first", "thr_last", "restage", "ubm_copy"][int(r.integers(0, 4))] if kind == "floor" else ["thr_first", "restage", "ubm_copy"][int(r.integers(0, 3))]
+    order = ["thr_first", "thr_last", "restage", "ubm_copy", "hdf5_ubm"][int(r.integers(0, 5))] if kind == "floor" else ["thr_first", "restage", "ubm_copy", "hdf5_ubm"][int(r.integers(0, 4))]
     return dict(kind=kind, C=C, D=D, w=w, m=m, v=v, thr=thr, x=x, tail=tail, order=order)
 
 
